@@ -13,6 +13,11 @@ by construction (`AbstractTextNode.pc_after`), see C02.
 `ignore` suffixes (`Decodable`), `to_text` of the concatenated codes of any sequence of entries returns the
 concatenation of their texts — the descending byte-length search finds exactly the code that was emitted,
 because any longer matching code would have that code as a proper prefix.
+
+**Composition** (`toBytesAux_entries`, `decode_encode`, `C18_roundtrip_file`): what `to_bytes` emits for a string
+without `[` *is* the concatenated codes of a sequence of table entries whose texts are the string minus the characters
+that start no entry; hence `to_text (to_bytes s) = s` for every string whose characters are each a table text, over every
+table file with unique, non-empty, prefix-free codes — whichever longer entries the encoder matched on the way.
 -/
 namespace A816.C18
 open A816 Spec.Table
@@ -530,5 +535,209 @@ theorem roundtrip (t : Tbl) (hd : Decodable t) (seq : List TblEntry) (hmem : ∀
 example :
     let es : List TblEntry := [⟨['a'], [1], none⟩, ⟨['b'], [2], none⟩, ⟨['a', 'b'], [3, 4], none⟩]
     (Tbl.toText ⟨es, 2, 2⟩ [1, 3, 4, 2]).toOption = some ['a', 'a', 'b', 'b'] := by decide
+
+
+/-- a successful table lookup comes from an entry of the table -/
+theorem tblLookup_entry (es : List TblEntry) (text : List Char) (c : List Nat) (h : tblLookup es text = some c) :
+    ∃ e ∈ es, e.text = text ∧ e.code = c := by
+  unfold tblLookup at h
+  simp only [Option.map_eq_some_iff] at h
+  obtain ⟨e, he, hc⟩ := h
+  have hmem : e ∈ es := by
+    have := List.mem_of_find?_eq_some he
+    simpa using this
+  have htext : e.text = text := by
+    have := List.find?_some he
+    simpa using this
+  exact ⟨e, hmem, htext, hc⟩
+
+/-- what the descending search returns is a table key -/
+theorem tryLen_found (es : List TblEntry) (rem : List Char) (k : Nat) (c : List Nat) (n : Nat)
+    (h : tryLen es rem k = some (c, n)) : tblLookup es (rem.take n) = some c := by
+  induction k with
+  | zero => simp [tryLen] at h
+  | succ k ih =>
+    unfold tryLen at h
+    cases hl : tblLookup es (rem.take (k + 1)) with
+    | some c' =>
+      simp only [hl, Option.some.injEq, Prod.mk.injEq] at h
+      obtain ⟨rfl, rfl⟩ := h; exact hl
+    | none => simp only [hl] at h; exact ih h
+
+/-- the descending search finds something as soon as the first character alone is a key -/
+theorem tryLen_some (es : List TblEntry) (rem : List Char) (k : Nat) (hk : 1 ≤ k)
+    (h1 : (tblLookup es (rem.take 1)).isSome) : (tryLen es rem k).isSome := by
+  induction k with
+  | zero => omega
+  | succ k ih =>
+    unfold tryLen
+    cases hl : tblLookup es (rem.take (k + 1)) with
+    | some c' => simp
+    | none =>
+      simp only
+      by_cases hk0 : k = 0
+      · subst hk0; rw [hl] at h1; simp at h1
+      · exact ih (by omega)
+
+theorem jokerMatch_none (rem : List Char) (h : '[' ∉ rem) : jokerMatch rem = none := by
+  unfold jokerMatch
+  split
+  · rename_i h3
+    exfalso
+    cases rem with
+    | nil => simp at h3
+    | cons a r =>
+      cases r with
+      | nil => simp at h3
+      | cons b r2 =>
+        cases r2 with
+        | nil => simp at h3
+        | cons c r3 =>
+          simp only [List.take_succ_cons, List.take_zero, List.cons.injEq, and_true] at h3
+          exact h (by rw [h3.1]; exact List.mem_cons_self)
+  · rfl
+
+theorem foldl_max_ge (l : List Nat) : ∀ (init x : Nat), x ∈ l → x ≤ l.foldl max init := by
+  induction l with
+  | nil => intro init x h; simp at h
+  | cons a l ih =>
+    intro init x h
+    simp only [List.foldl_cons]
+    rcases List.mem_cons.mp h with rfl | h
+    · have mono : ∀ (l : List Nat) (i : Nat), i ≤ l.foldl max i := by
+        intro l; induction l with
+        | nil => intro i; simp
+        | cons b l ih2 => intro i; simp only [List.foldl_cons]; exact Nat.le_trans (Nat.le_max_left i b) (ih2 _)
+      exact Nat.le_trans (Nat.le_max_right init x) (mono l _)
+    · exact ih _ _ h
+
+/-- **what `to_bytes` emits is the codes of a sequence of table entries** (for strings without the `[` of a
+    raw-byte escape): the texts of those entries are what is left of the string when the characters that start no
+    entry are dropped, and the whole string when each of its characters is itself a table text. -/
+theorem toBytesAux_entries (t : Tbl) (textLen : Nat) : ∀ (fuel : Nat) (rem : List Char), '[' ∉ rem →
+    rem.length ≤ fuel →
+    ∃ seq : List TblEntry, (∀ e ∈ seq, e ∈ t.entries) ∧ toBytesAux t textLen fuel rem = .ok (seq.flatMap (·.code)) ∧
+      (seq.flatMap (·.text)).Sublist rem ∧
+      ((∀ c ∈ rem, (tblLookup t.entries [c]).isSome) → 1 ≤ min textLen t.maxTextLen → seq.flatMap (·.text) = rem) := by
+  intro fuel
+  induction fuel with
+  | zero =>
+    intro rem _ h0
+    have : rem = [] := by cases rem <;> simp_all
+    subst this
+    exact ⟨[], by simp, by simp [toBytesAux], by simp, by simp⟩
+  | succ f ih =>
+    intro rem hb hf
+    unfold toBytesAux
+    by_cases he : rem.isEmpty = true
+    · have : rem = [] := by cases rem <;> simp_all
+      subst this
+      exact ⟨[], by simp, by simp, by simp, by simp⟩
+    · simp only [he, Bool.false_eq_true, ↓reduceIte]
+      have hne : rem ≠ [] := by intro h; subst h; simp at he
+      rw [jokerMatch_none rem hb]
+      simp only
+      cases ht : tryLen t.entries rem (min textLen t.maxTextLen) with
+      | some ci =>
+        obtain ⟨code, i⟩ := ci
+        have hi := tryLen_pos _ _ _ _ _ ht
+        obtain ⟨e, hem, hetext, hecode⟩ := tblLookup_entry _ _ _ (tryLen_found _ _ _ _ _ ht)
+        have hbd : '[' ∉ rem.drop i := fun h => hb (List.mem_of_mem_drop h)
+        have hposlen : 0 < rem.length := List.length_pos_iff.mpr hne
+        obtain ⟨seq, hmem, hok, hsub, hall⟩ := ih (rem.drop i) hbd (by rw [List.length_drop]; omega)
+        refine ⟨e :: seq, ?_, ?_, ?_, ?_⟩
+        · intro x hx
+          rcases List.mem_cons.mp hx with rfl | hx
+          · exact hem
+          · exact hmem x hx
+        · simp only [hok, List.flatMap_cons, hecode]
+        · simp only [List.flatMap_cons, hetext]
+          conv => rhs; rw [← List.take_append_drop i rem]
+          exact List.Sublist.append (List.Sublist.refl _) hsub
+        · intro hc hk
+          simp only [List.flatMap_cons, hetext]
+          rw [hall (fun c hcm => hc c (List.mem_of_mem_drop hcm)) hk]
+          exact List.take_append_drop i rem
+      | none =>
+        simp only
+        have hbd : '[' ∉ rem.drop 1 := fun h => hb (List.mem_of_mem_drop h)
+        have hposlen : 0 < rem.length := List.length_pos_iff.mpr hne
+        obtain ⟨seq, hmem, hok, hsub, _⟩ := ih (rem.drop 1) hbd (by rw [List.length_drop]; omega)
+        refine ⟨seq, hmem, hok, hsub.trans (List.drop_sublist 1 rem), ?_⟩
+        intro hc hk
+        exfalso
+        obtain ⟨a, r, rfl⟩ := List.exists_cons_of_ne_nil hne
+        have h1 : (tblLookup t.entries ((a :: r).take 1)).isSome := by
+          simpa using hc a List.mem_cons_self
+        have := tryLen_some t.entries (a :: r) _ hk h1
+        rw [ht] at this; simp at this
+
+/-- **C18 round trip, composed**: over a decodable table (as `mkTable` builds it), a string without `[` in
+    which every character is itself a table text is returned unchanged by `to_text (to_bytes s)` — whatever longer
+    entries the table also has, and whichever of them the longest-match encoder picked. -/
+theorem decode_encode (t : Tbl) (hd : Decodable t)
+    (hmax : t.maxTextLen = (t.entries.map (·.text.length)).foldl max 0) (text : List Char)
+    (hb : '[' ∉ text) (hc : ∀ c ∈ text, (tblLookup t.entries [c]).isSome) :
+    ∃ bytes, t.toBytes text = .ok bytes ∧ t.toText bytes = .ok text := by
+  obtain ⟨seq, hmem, hok, hsub, hall⟩ := toBytesAux_entries t text.length text.length text hb (Nat.le_refl _)
+  refine ⟨seq.flatMap (·.code), by unfold Tbl.toBytes; exact hok, ?_⟩
+  rw [roundtrip t hd seq hmem]
+  cases text with
+  | nil =>
+    rw [List.sublist_nil.mp hsub]
+  | cons a r =>
+    have h1 : 1 ≤ min (a :: r).length t.maxTextLen := by
+      have hs := hc a List.mem_cons_self
+      cases hl : tblLookup t.entries [a] with
+      | none => rw [hl] at hs; simp at hs
+      | some c =>
+        have := tblLookup_len _ _ _ hl
+        rw [← hmax] at this
+        simp only [List.length_cons, List.length_nil] at this ⊢
+        omega
+    rw [hall hc h1]
+
+/-- a string over the single-character texts of a decodable table, decoded after encoding, in general: the
+    characters that start no entry are lost, nothing else changes (`Sublist`) -/
+theorem decode_encode_sublist (t : Tbl) (hd : Decodable t) (text : List Char) (hb : '[' ∉ text) :
+    ∃ bytes out, t.toBytes text = .ok bytes ∧ t.toText bytes = .ok out ∧ out.Sublist text := by
+  obtain ⟨seq, hmem, hok, hsub, _⟩ := toBytesAux_entries t text.length text.length text hb (Nat.le_refl _)
+  exact ⟨seq.flatMap (·.code), seq.flatMap (·.text), by unfold Tbl.toBytes; exact hok, roundtrip t hd seq hmem, hsub⟩
+
+/-- the table `mkTable` builds from a file is `Decodable` as soon as its entries are: `max_code_length` is computed
+    so that it covers every code -/
+theorem mkTable_decodable (lines : List (List Char)) (t : Tbl) (h : mkTable lines = .ok t)
+    (noIgnore : ∀ e ∈ t.entries, e.ignore = none) (nonEmpty : ∀ e ∈ t.entries, e.code ≠ [])
+    (unique : ∀ e1 ∈ t.entries, ∀ e2 ∈ t.entries, e1.code = e2.code → e1 = e2)
+    (prefixFree : ∀ e1 ∈ t.entries, ∀ e2 ∈ t.entries, e1.code <+: e2.code → e1.code = e2.code) : Decodable t := by
+  refine ⟨noIgnore, nonEmpty, unique, prefixFree, ?_⟩
+  have hmc : t.maxCodeLen = (t.entries.map (·.code.length)).foldl max 0 := by
+    unfold mkTable at h
+    split at h
+    · cases h
+    · cases h
+    · cases h; rfl
+  intro e he
+  rw [hmc]
+  exact foldl_max_ge _ 0 _ (List.mem_map_of_mem he)
+
+/-- **C18 (round trip from the table file)**: for a table file that loads, whose entries have unique, non-empty,
+    prefix-free codes and no `ignore` suffix, every string without `[` whose characters are each a table text
+    satisfies `to_text(to_bytes(s)) = s`. -/
+theorem C18_roundtrip_file (lines : List (List Char)) (t : Tbl) (h : mkTable lines = .ok t)
+    (noIgnore : ∀ e ∈ t.entries, e.ignore = none) (nonEmpty : ∀ e ∈ t.entries, e.code ≠ [])
+    (unique : ∀ e1 ∈ t.entries, ∀ e2 ∈ t.entries, e1.code = e2.code → e1 = e2)
+    (prefixFree : ∀ e1 ∈ t.entries, ∀ e2 ∈ t.entries, e1.code <+: e2.code → e1.code = e2.code)
+    (text : List Char) (hb : '[' ∉ text) (hc : ∀ c ∈ text, (tblLookup t.entries [c]).isSome) :
+    ∃ bytes, t.toBytes text = .ok bytes ∧ t.toText bytes = .ok text :=
+  decode_encode t (mkTable_decodable lines t h noIgnore nonEmpty unique prefixFree) (mkTable_max lines t h) text hb hc
+
+/-! non-vacuity: the table file `01=a 02=b 0304=ab` loads, and "aabb" is encoded as 01 03 04 02 and decoded back -/
+private def tABfile : List (List Char) := ["01=a\n".toList, "02=b\n".toList, "0304=ab\n".toList]
+example : (mkTable tABfile).toOption.map (fun t => ((t.toBytes "aabb".toList).toOption,
+      ((t.toBytes "aabb".toList).toOption.map fun b => (t.toText b).toOption)))
+    = some (some [1, 3, 4, 2], some (some "aabb".toList)) := by decide +kernel
+example : (mkTable tABfile).toOption.map (fun t => "aabb".toList.all fun c => (tblLookup t.entries [c]).isSome) = some true := by
+  decide +kernel
 
 end A816.C18
